@@ -7,7 +7,8 @@
  *         fobj     the `filter` frame with an arbitrary target object bound to `obj` (EvaluateFilter), for field reads
  *
  * Lines (text after " | " is the implementation's observation):
- *   P <site> cmp=<0|1> root=<class> abs=<s-expr, blanks as commas> src=<hex> | <outcome> chg=<g|-><o|-><f|-> leak=<0|1|2>
+ *   P <site> cmp=<0|1> root=<class> abs=<s-expr, blanks as commas> src=<hex> | <outcome> chg=<g|-><o|-><f|-> leak=<0|1|2> inv=<n>
+ *     (inv: how many times a native WITHOUT the side-effect-free flag was actually invoked during the evaluation)
  *   N <site> name=<registered name> safe=<0|1> src=<hex>                     | <outcome> chg=... leak=..
  *   H <site> type=<T> field=<f> nuv=<0|1> src=<hex>                          | <outcome> chg=... leak=..
  *   T natives <name>=<0|1> ...                                                (the implementation's flags, one line)
@@ -62,6 +63,7 @@ namespace vh {
 VH_ROB_MEMBER(RobArrFrozen, Array, bool, m_Frozen)
 VH_ROB_MEMBER(RobDictFrozen, Dictionary, bool, m_Frozen)
 VH_ROB_MEMBER(RobNsFrozen, Namespace, std::atomic<bool>, m_Frozen)
+VH_ROB_MEMBER(RobFnCallback, Function, Function::Callback, m_Callback)
 VH_ROB_STATIC(RobExecScript, bool (*type)(bhttp::request<bhttp::string_body>&, bhttp::response<bhttp::string_body>&,
 	const Dictionary::Ptr&, const String&, const String&, bool), ConsoleHandler, ExecuteScriptHelper)
 }
@@ -220,11 +222,15 @@ static Snap TakeSnap() { return { SnapGlobals(), SnapObjects(), SnapFiles() }; }
 
 struct Outcome { std::string kind; std::string text; };
 
-static std::string Classify(const std::string& msg)
+/* Which kind of error: only for the statistics and the evidence — the driver compares value-vs-error, and the
+ * specification uses the message-independent observations (chg, leak, inv), so rewording a message is harmless. */
+static std::string Classify(const std::string& msg0)
 {
-	if (msg.find("Accessing the field") != std::string::npos && msg.find("is not allowed in sandbox mode") != std::string::npos)
+	std::string msg = msg0;
+	for (auto& c : msg) c = (char)tolower((unsigned char)c);
+	if (msg.find("accessing the field") != std::string::npos && msg.find("sandbox") != std::string::npos)
 		return "hidden";
-	if (msg.find("sandbox mode") != std::string::npos || msg.find("must be side-effect free") != std::string::npos)
+	if (msg.find("sandbox") != std::string::npos || msg.find("side-effect free") != std::string::npos || msg.find("marked as safe") != std::string::npos)
 		return "sandbox";
 	return "err";
 }
@@ -264,6 +270,7 @@ static bool ContainsMarker(const Value& v, int depth)
 }
 
 static bool l_ValueLeak = false;
+static int l_UnsafeInvoked = 0;      /* see WrapUnsafe */
 
 static Outcome EvalWithFrame(const String& text, bool allocLocals, const Object::Ptr& target, const String& varName)
 {
@@ -410,14 +417,16 @@ static void Observe(const std::string& opPrefix, const std::string& site, const 
 	l_Current = opPrefix + " src=" + Hex(src);
 	l_LeakMask = 0;
 	l_ValueLeak = false;
+	l_UnsafeInvoked = 0;
 	Outcome oc = EvalAt(site, src, target);
+	int invoked = l_UnsafeInvoked;
 	Application::GetTP().Restart();      /* join anything the evaluation queued */
 	Snap after = TakeSnap();
 	char chg[4] = { after.g != l_Before.g ? 'g' : '-', after.o != l_Before.o ? 'o' : '-', after.f != l_Before.f ? 'f' : '-', 0 };
 	/* leak: 0 none; 1 the secret is in a computed value or an error text; 2 only as the `password` field of
 	 * a config object that the console serialized with all its fields */
 	int leak = (oc.text.find(SECRET) != std::string::npos || oc.text.find("987654321") != std::string::npos || (l_LeakMask & 1) || l_ValueLeak) ? 1 : ((l_LeakMask & 2) ? 2 : 0);
-	printf("%s | %s chg=%s leak=%d\n", l_Current.c_str(), oc.kind.c_str(), chg, leak);
+	printf("%s | %s chg=%s leak=%d inv=%d\n", l_Current.c_str(), oc.kind.c_str(), chg, leak, invoked);
 	fflush(stdout);
 	l_Before = after;
 	l_Current.clear();
@@ -721,7 +730,16 @@ static Prog GenStmtRaw(Rng& rng, int depth, int& id)
 
 /* ---------------------------------------------------------------- natives by reflection */
 
-struct NativeRef { std::string name; std::string callee; bool safe; int arity; };
+struct NativeRef { std::string name; std::string callee; bool safe; int arity; Function::Ptr fn; };
+
+/* Message-independent observation of "a function that is not side-effect free was actually invoked": every
+ * reflected native without the flag gets a counting wrapper around its callback (Setup). */
+static void WrapUnsafe(const Function::Ptr& f)
+{
+	Function::Callback& cb = (*f).*get(RobFnCallback());
+	Function::Callback orig = cb;
+	cb = [orig](const std::vector<Value>& args) -> Value { l_UnsafeInvoked++; return orig(args); };
+}
 
 static std::string ReceiverFor(const std::string& prefix)
 {
@@ -753,7 +771,7 @@ static void CollectNs(const Namespace::Ptr& ns, const std::string& path, int dep
 			std::string name = f->GetName().CStr();
 			Array::Ptr args = f->GetArguments();
 			if (!out.count(name))
-				out[name] = { name, p, f->IsSideEffectFree(), args ? (int)args->GetLength() : 0 };
+				out[name] = { name, p, f->IsSideEffectFree(), args ? (int)args->GetLength() : 0, f };
 		} else if (Namespace::Ptr sub = dynamic_pointer_cast<Namespace>(o)) {
 			CollectNs(sub, p, depth - 1, out, seen);
 		}
@@ -783,7 +801,7 @@ static std::map<std::string, NativeRef> CollectNatives(int& skipped)
 			std::string recv = ReceiverFor(h == std::string::npos ? "" : name.substr(0, h));
 			if (recv.empty()) { skipped++; continue; }
 			Array::Ptr args = f->GetArguments();
-			out[name] = { name, recv + "." + kv.first.CStr(), f->IsSideEffectFree(), args ? (int)args->GetLength() : 0 };
+			out[name] = { name, recv + "." + kv.first.CStr(), f->IsSideEffectFree(), args ? (int)args->GetLength() : 0, f };
 		}
 	}
 	return out;
@@ -860,6 +878,13 @@ static void Setup()
 		l_UserPF->SetPassword(SECRET);
 		l_UserPF->SetPermissions(new Array({ new Dictionary({ { "permission", "objects/query/Host" }, { "filter", pfilter } }), "console" }));
 		l_UserPF->Register();
+	}
+	{
+		int skipped = 0;
+		for (auto& kv : CollectNatives(skipped))
+			/* Function#call/#callv are trampolines (they only invoke their receiver, which carries its own wrapper) and
+			 * FilterUtility itself uses `filter.call(this)` for permission filters outside the sandbox */
+			if (!kv.second.safe && kv.first != "Function#call" && kv.first != "Function#callv") WrapUnsafe(kv.second.fn);
 	}
 	PlantMarkers(l_User);          /* same state whether or not an ApiUser line ran before */
 	PlantMarkers(l_UserPF);
